@@ -22,6 +22,8 @@ CLAUSE = CLAUSE + (" In ppm_export's caller-buffer branch the advance capacity c
                    "character set name of each text export format is the one its menu label names.")
 CLAUSE = CLAUSE + (" A block handed straight to the target (e->_write with anything but the export buffer) is dominated by "
                    "fast_flush(); in the glyph renderers rowstride (bytes) occurs inside a pixel index only divided by canvas_type.")
+CLAUSE = CLAUSE + (" Every html_instance field written while a page is exported is reset by free_styles(); vbi_export_file opens "
+                   "its target with O_TRUNC.")
 NOT_DECIDED = ("pixel rectangle arithmetic under arbitrary rowstride, character-for-character fidelity of the text output, "
                "byte identity of the targets as values.")
 
@@ -88,6 +90,8 @@ def run(ctx, run):
     _format_names(ctx, run)
     _flush_before_direct_write(ctx, run)
     _stride_units(ctx, run)
+    _html_state_reset(ctx, run)
+    _file_truncated(ctx, run)
 
 
 def _grow_before_store(ctx, run):
@@ -588,3 +592,63 @@ def _stride_units(ctx, run):
         else:
             run.holds("RF-UNIT", key, "every rowstride inside a peek/poke index is divided by canvas_type", "%s:%d" % (f.file, f.line))
     run.floor("rowstride uses inside pixel indices", n, 20)
+
+
+def _html_state_reset(ctx, run):
+    """RF-INIT: an export context can be used for any number of exports (the documented
+    size-query idiom calls vbi_export_mem twice).  Every html_instance field the per-page code
+    writes - the running text attribute state - is written by free_styles(), which ends each
+    export, too; what survives decides the default style and the set of span classes of the next
+    page, so two exports of one page differ.  (`cd`, the conversion descriptor, is a resource that
+    is opened and closed explicitly.)"""
+    P = ctx.prog
+    writers = {}
+    for f in P.funcs:
+        if f.file != "src/exp-html.c":
+            continue
+        for bid, i in flow.all_events(f):
+            for lhs, var, op, rhs in flow.stores(f, i):
+                if lhs is None:
+                    continue
+                l = f.exprs[ex.skip(f, lhs)]
+                while l["k"] == "idx":
+                    l = f.exprs[ex.skip(f, l["c"][0])]
+                if l["k"] == "mem" and l.get("in") == "html_instance":
+                    writers.setdefault(l["member"], set()).add(f.name)
+    fs = P.need("free_styles", "src/exp-html.c")
+    run.touch(fs)
+    dynamic = {k for k, ws in writers.items() if "export" in ws and k != "cd"}
+    run.floor("html_instance fields written by the per-page code", len(dynamic), 8)
+    for fld in sorted(dynamic):
+        key = "RF-INIT:free_styles:%s" % fld
+        if "free_styles" in writers[fld]:
+            run.holds("RF-INIT", key, "html->%s is reset at the end of each export" % fld, "%s:%d" % (fs.file, fs.line), nontrivial=False)
+        else:
+            run.violation("RF-INIT", key, "html->%s is written while a page is exported but not reset by free_styles(): the next "
+                          "export with the same context starts from the last page's value (export() reads the colours before "
+                          "header() runs), so the same page exports to different HTML - the size query and the real export "
+                          "disagree" % fld, "%s:%d" % (fs.file, fs.line))
+
+
+def _file_truncated(ctx, run):
+    """RF-BITS: vbi_export_file() produces a file whose content is exactly the exported data:
+    the open flags contain O_TRUNC, or an existing longer file keeps its tail."""
+    P = ctx.prog
+    f = P.need("vbi_export_file", EXPORT)
+    run.touch(f)
+    n = 0
+    for bid, i in flow.all_events(f):
+        e = f.exprs[i]
+        if e["k"] != "call" or e.get("callee") not in ("xopen", "open", "open64") or len(e.get("c", [])) < 2:
+            continue
+        n += 1
+        flags = ex.const(f, e["c"][1])
+        key = "RF-BITS:vbi_export_file:truncates"
+        O_TRUNC = 0o1000
+        if flags is not None and flags & O_TRUNC:
+            run.holds("RF-BITS", key, "open flags %#o include O_TRUNC" % flags, ex.loc(f, i))
+        else:
+            run.violation("RF-BITS", key, "vbi_export_file() opens the target with flags %s, without O_TRUNC: exporting over an "
+                          "existing, longer file leaves the old tail behind the new data - the file is not byte-identical to the "
+                          "other targets" % (("%#o" % flags) if flags is not None else "that are not constant"), ex.loc(f, i))
+    run.floor("opens of the export file", n, 1)
